@@ -3060,7 +3060,9 @@ class Network(Cached):
         """
         DwR = self.sp_diag_sqrt_w()
         sp_Astar = DwR * self.sp_Aplus() * DwR
-        _, evecs = eigsh(sp_Astar, k=1, sigma=self.total_node_weight**2,
+        #  shift above the spectrum (largest eigenvalue <= total node weight)
+        _, evecs = eigsh(sp_Astar, k=1,
+                         sigma=max(self.total_node_weight, 1.0)**2,
                          maxiter=100, tol=1e-8)
         ec = evecs.T[0] / np.sqrt(self.node_weights)
         ec *= np.sign(ec[0])
